@@ -20,6 +20,8 @@ type Job struct {
 	// faults (C10)
 	FailAt   int    `json:"fail_at"`   // writer fails once this many bytes were accepted; <0 = never
 	Short    bool   `json:"short"`     // failing write accepts part of the slice first
+	FullErr  bool   `json:"full_err"`  // failing write accepts the whole slice and still returns the error
+	NilShort bool   `json:"nil_short"` // the write that crosses FailAt accepts part of the slice and returns a nil error (io.Writer contract violation)
 	FailExpr string `json:"fail_expr"` // a.E(id) returns an error
 	Cancel   bool   `json:"cancel"`    // context cancelled before Render
 	BufSize  int    `json:"buf_size"`  // runtime.DefaultBufferSize for this process (first job decides)
@@ -50,13 +52,30 @@ type flushWriter struct{ *faultWriter }
 func (w flushWriter) Flush() error { return ErrFlush }
 
 type faultWriter struct {
-	buf    bytes.Buffer
-	failAt int
-	short  bool
+	buf      bytes.Buffer
+	failAt   int
+	short    bool
+	fullErr  bool
+	nilShort bool
+	tripped  bool
 }
 
 func (w *faultWriter) Write(p []byte) (int, error) {
-	if w.failAt >= 0 && w.buf.Len()+len(p) > w.failAt {
+	if w.failAt >= 0 && w.fullErr && !w.tripped && w.buf.Len()+len(p) >= w.failAt {
+		w.tripped = true
+		w.buf.Write(p)
+		return len(p), ErrWriter
+	}
+	if w.failAt >= 0 && w.nilShort && !w.tripped && w.buf.Len()+len(p) > w.failAt {
+		w.tripped = true
+		n := w.failAt - w.buf.Len()
+		if n < 0 {
+			n = 0
+		}
+		w.buf.Write(p[:n])
+		return n, nil
+	}
+	if w.failAt >= 0 && !w.fullErr && !w.nilShort && w.buf.Len()+len(p) > w.failAt {
 		n := 0
 		if w.short {
 			n = w.failAt - w.buf.Len()
@@ -86,7 +105,7 @@ func RenderJob(reg map[string]func(*A) templ.Component, j Job) (res Result) {
 		cancel()
 		ctx = c
 	}
-	w := &faultWriter{failAt: j.FailAt, short: j.Short}
+	w := &faultWriter{failAt: j.FailAt, short: j.Short, fullErr: j.FullErr, nilShort: j.NilShort}
 	defer func() {
 		if r := recover(); r != nil {
 			res.Panic = fmt.Sprint(r)
